@@ -805,6 +805,8 @@ def r8_inventory(ctx, reach):
 
 
 def run(ctx):
+    from . import C01 as _C01n
+    _C01n.r13_no_cancel_and_retry_of_framed_reads(ctx)   # a framed read is never dropped half-way and retried: the relay would wait for ever on a length taken from the middle of a record
     from . import C09 as _C09d
     _C09d.r13_dispatcher_never_waits_for_a_consumer(ctx)   # a frame cannot park the receive task behind a stream consumer that is itself waiting for the receive task
     from . import effects
